@@ -302,36 +302,36 @@ structure Inv (T : Tables) (ty : τ → Nat) (c : Config τ (Tree τ) σ) : Prop
   yld : yieldList c.vals.reverse = c.shifted.reverse
 
 def lookTerm (T : Tables) (ty : τ → Nat) (c : Config τ (Tree τ) σ) : Nat :=
-  match c.look with
-  | some (some t) => ty t
-  | _ => T.endTerm
+  lookTermOf T (treeSem (σ := σ) (ε := ε) ty) c
 
 theorem fetch_spec {c c1 : Config τ (Tree τ) σ} {st : Nat} {a : Option Act}
-    (hf : fetch T (treeSem (ε := ε) ty) R c st = (a, c1)) :
+    (hf : fetch T (treeSem (σ := σ) (ε := ε) ty) R c st = .ok (a, c1)) :
     c1.states = c.states ∧ c1.vals = c.vals ∧ c1.shifted = c.shifted ∧
     ((∃ p, defaultedOf T st = some p ∧ a = some (.reduce p)) ∨
-      a = actionOf T st (lookTerm T ty c1)) := by
+      a = actionOf T st (lookTerm (ε := ε) T ty c1)) := by
   unfold fetch at hf
   split at hf
   · next p hp =>
-    simp only [Prod.mk.injEq] at hf
+    simp only [Except.ok.injEq, Prod.mk.injEq] at hf
     obtain ⟨rfl, rfl⟩ := hf
     exact ⟨rfl, rfl, rfl, Or.inl ⟨p, hp, rfl⟩⟩
-  · simp only [Prod.mk.injEq] at hf
-    obtain ⟨rfl, rfl⟩ := hf
-    refine ⟨?_, ?_, ?_, Or.inr ?_⟩
-    · split <;> rfl
-    · split <;> rfl
-    · split <;> rfl
-    · rfl
+  · split at hf
+    · simp only [Except.ok.injEq, Prod.mk.injEq] at hf
+      obtain ⟨rfl, rfl⟩ := hf
+      exact ⟨rfl, rfl, rfl, Or.inr rfl⟩
+    · split at hf
+      · simp at hf
+      · simp only [Except.ok.injEq, Prod.mk.injEq] at hf
+        obtain ⟨rfl, rfl⟩ := hf
+        exact ⟨rfl, rfl, rfl, Or.inr rfl⟩
 
 theorem inv_init (s : σ) : Inv T ty (initConfig s : Config τ (Tree τ) σ) :=
   ⟨StackOK.base, by simp [initConfig, yieldList]⟩
 
-theorem reduce_rhs_ok (h : tablesValid T cert acc = true) {c1 : Config τ (Tree τ) σ} {st p : Nat}
+theorem reduce_rhs_ok (ε : Type) (h : tablesValid T cert acc = true) {c1 : Config τ (Tree τ) σ} {st p : Nat}
     {a : Option Act}
     (hdisj : (∃ p, defaultedOf T st = some p ∧ a = some (.reduce p)) ∨
-      a = actionOf T st (lookTerm T ty c1)) (ha : a = some (.reduce p)) :
+      a = actionOf T st (lookTerm (ε := ε) T ty c1)) (ha : a = some (.reduce p)) :
     prodRhsOK T cert st p = true := by
   rcases hdisj with ⟨p', hd, ha'⟩ | ha'
   · rw [ha] at ha'; cases ha'; exact tv_defaulted h hd
@@ -340,12 +340,13 @@ theorem reduce_rhs_ok (h : tablesValid T cert acc = true) {c1 : Config τ (Tree 
     simpa [actionEntryOK, hdec] using hok
 
 theorem step_inv (h : tablesValid T cert acc = true) {c c' : Config τ (Tree τ) σ}
-    (hinv : Inv T ty c) (hs : step T (treeSem (ε := ε) ty) R c = .inl c') : Inv T ty c' := by
+    (hinv : Inv T ty c) (hs : step T (treeSem (σ := σ) (ε := ε) ty) R c = .inl c') : Inv T ty c' := by
   unfold step at hs
   split at hs
   · simp at hs
   · next st below hst =>
     split at hs
+    · simp at hs
     · -- shift
       next s c1 hf =>
       obtain ⟨h1, h2, h3, hdisj⟩ := fetch_spec hf
@@ -357,7 +358,7 @@ theorem step_inv (h : tablesValid T cert acc = true) {c c' : Config τ (Tree τ)
         have hact : actionOf T st (ty t) = some (.shift s) := by
           rcases hdisj with ⟨p, _, hp⟩ | hp
           · simp at hp
-          · simpa [lookTerm, hl] using hp.symm
+          · simpa [lookTerm, lookTermOf, treeSem, hl] using hp.symm
         constructor
         · simp only [h1, h2, hst]
           have := hinv.stack
@@ -369,7 +370,7 @@ theorem step_inv (h : tablesValid T cert acc = true) {c c' : Config τ (Tree τ)
     · -- reduce
       next p c1 hf =>
       obtain ⟨h1, h2, h3, hdisj⟩ := fetch_spec hf
-      have hrhs := reduce_rhs_ok (c1 := c1) h hdisj rfl
+      have hrhs := reduce_rhs_ok ε (c1 := c1) h hdisj rfl
       unfold doReduce at hs
       split at hs
       · simp at hs
@@ -429,13 +430,14 @@ theorem step_inv (h : tablesValid T cert acc = true) {c c' : Config τ (Tree τ)
           exact ⟨by simpa [h1, h2] using hinv.stack, by simpa [h2, h3] using hinv.yld⟩
 
 theorem step_accept (h : tablesValid T cert acc = true) {c : Config τ (Tree τ) σ} {v : Tree τ}
-    (hinv : Inv T ty c) (hs : step T (treeSem (ε := ε) ty) R c = .inr (.accepted v)) :
+    (hinv : Inv T ty c) (hs : step T (treeSem (σ := σ) (ε := ε) ty) R c = .inr (.accepted v)) :
     v.valid T ty ∧ v.yield = c.shifted.reverse := by
   unfold step at hs
   split at hs
   · simp at hs
   · next st below hst =>
     split at hs
+    · simp at hs
     · next s c1 hf =>
       unfold doShift at hs
       split at hs <;> simp at hs
@@ -455,7 +457,7 @@ theorem step_accept (h : tablesValid T cert acc = true) {c : Config τ (Tree τ)
       · next v' rest hv =>
         simp only [Sum.inr.injEq, Outcome.accepted.injEq] at hs
         subst hs
-        have hact : actionOf T st (lookTerm T ty c1) = some .accept := by
+        have hact : actionOf T st (lookTerm (ε := ε) T ty c1) = some .accept := by
           rcases hdisj with ⟨p, _, hp⟩ | hp
           · simp at hp
           · exact hp.symm
@@ -487,7 +489,7 @@ theorem step_accept (h : tablesValid T cert acc = true) {c : Config τ (Tree τ)
     yield is exactly the sequence of tokens that were shifted. -/
 theorem run_sound (h : tablesValid T cert acc = true) :
     ∀ (fuel : Nat) (c c' : Config τ (Tree τ) σ) (v : Tree τ), Inv T ty c →
-      run T (treeSem (ε := ε) ty) R fuel c = (.accepted v, c') →
+      run T (treeSem (σ := σ) (ε := ε) ty) R fuel c = (.accepted v, c') →
       v.valid T ty ∧ v.yield = c'.shifted.reverse
   | 0, c, c', v, _, hr => by simp [run] at hr
   | fuel + 1, c, c', v, hinv, hr => by
